@@ -798,7 +798,7 @@ ASSUMPTIONS = [
     "it: how many body bytes arrive with the head is compared only where both sides have them)",
     "http 1.5.0: Method::from_bytes, HeaderName::from_bytes, HeaderValue::from_maybe_shared/to_str, Uri::from_maybe_shared (scheme http/https, "
     "authority scan, path/query classes, UTF-8 check) are transcribed into the model and validated by the differential run, not proved against "
-    "the crate; parse_print* take the crate's verdict on the target as the hypothesis parse_uri .. = Some ..",
+    "the crate; parse_print* take the crate's verdict on the URI (scheme://host target when the Host value is an authority, the origin-form target alone otherwise) as the hypothesis request_uri .. = Some ..",
     "HeaderMap::insert's MAX_SIZE (32768 entries) panic is not modelled: unreachable below 96 KiB of head",
     "read_to_bytes' inner reads (through tokio's Take into Http1Body::poll_read) are modelled as reads of the connection itself: there "
     "poll_read's own cap content_length - offset is never below Take's limit; the differential run covers the combination",
@@ -863,11 +863,11 @@ THEOREMS = [
     ("parse_print",
      r"forall grow mode https dh (max_len : nat) limit (g : greq) rest (sched : list nat) e, grow_ok grow -> sched_pos sched -> greq_ok g = true -> (length (print_head g) <= max_len)%nat -> expect https dh limit g rest = Some e -> (NEED <= length rest)%nat -> (length (print_head g) + NEED <= sum_sched sched)%nat -> exists sv, serve grow mode https dh max_len limit (print_head g ++ rest) sched = Ok sv /\ observed sv = Some e".replace("NEED", NEED)),
     ("parse_print_head",
-     r"forall https dh (g : greq) extra host auth path query, greq_ok g = true -> g_host dh g = Some host -> parse_uri https host (g_target g) = Some (auth, path, query) -> parse_request https dh (print_head g ++ extra) = Ok (mk_request (g_method g) path query (if g_v11 g then 11 else 10) (g_hmap g) auth extra)"),
+     r"forall https dh (g : greq) extra auth path query, greq_ok g = true -> request_uri https (g_host dh g) (g_target g) = Some (auth, path, query) -> parse_request https dh (print_head g ++ extra) = Ok (mk_request (g_method g) path query (if g_v11 g then 11 else 10) (g_hmap g) auth extra)"),
     ("parse_print_lf",
      r"forall grow mode https dh (max_len : nat) limit (l0 : bool) (fl : list bool) (lb : bool) (g : greq) rest (sched : list nat) e, grow_ok grow -> sched_pos sched -> greq_ok g = true -> (length (print_head_e l0 fl lb g) <= max_len)%nat -> expect https dh limit g rest = Some e -> (NEED <= length rest)%nat -> (length (print_head_e l0 fl lb g) + NEED <= sum_sched sched)%nat -> exists sv, serve grow mode https dh max_len limit (print_head_e l0 fl lb g ++ rest) sched = Ok sv /\ observed sv = Some e".replace("NEED", NEED)),
     ("parse_print_head_lf",
-     r"forall https dh (l0 : bool) (fl : list bool) (lb : bool) (g : greq) extra host auth path query, greq_ok g = true -> g_host dh g = Some host -> parse_uri https host (g_target g) = Some (auth, path, query) -> parse_request https dh (print_head_e l0 fl lb g ++ extra) = Ok (mk_request (g_method g) path query (if g_v11 g then 11 else 10) (g_hmap g) auth extra)"),
+     r"forall https dh (l0 : bool) (fl : list bool) (lb : bool) (g : greq) extra auth path query, greq_ok g = true -> request_uri https (g_host dh g) (g_target g) = Some (auth, path, query) -> parse_request https dh (print_head_e l0 fl lb g ++ extra) = Ok (mk_request (g_method g) path query (if g_v11 g then 11 else 10) (g_hmap g) auth extra)"),
     ("schedule_independent",
      r"forall grow1 grow2 mode1 mode2 https dh (max_len : nat) limit (g : greq) rest (sched1 sched2 : list nat), grow_ok grow1 -> grow_ok grow2 -> sched_pos sched1 -> sched_pos sched2 -> greq_ok g = true -> (length (print_head g) <= max_len)%nat -> expect https dh limit g rest <> None -> (NEED <= length rest)%nat -> (length (print_head g) + NEED <= sum_sched sched1)%nat -> (length (print_head g) + NEED <= sum_sched sched2)%nat -> exists sv1 sv2, serve grow1 mode1 https dh max_len limit (print_head g ++ rest) sched1 = Ok sv1 /\ serve grow2 mode2 https dh max_len limit (print_head g ++ rest) sched2 = Ok sv2 /\ observed sv1 = observed sv2 /\ observed sv1 <> None".replace("NEED", NEED)),
     ("segmentation_blind",
@@ -885,7 +885,7 @@ THEOREMS = [
     ("parse_print_ows",
      r"forall grow mode https dh (max_len : nat) limit (l0 : bool) (ds : list deco) (lb : bool) (g : greq) rest (sched : list nat) e, grow_ok grow -> sched_pos sched -> greq_ok g = true -> decos_ok ds (g_headers g) = true -> (length (print_head_d l0 ds lb g) <= max_len)%nat -> expect https dh limit g rest = Some e -> (NEED <= length rest)%nat -> (length (print_head_d l0 ds lb g) + NEED <= sum_sched sched)%nat -> exists sv, serve grow mode https dh max_len limit (print_head_d l0 ds lb g ++ rest) sched = Ok sv /\ observed sv = Some e".replace("NEED", NEED)),
     ("parse_print_head_ows",
-     r"forall https dh (l0 : bool) (ds : list deco) (lb : bool) (g : greq) extra host auth path query, greq_ok g = true -> decos_ok ds (g_headers g) = true -> g_host dh g = Some host -> parse_uri https host (g_target g) = Some (auth, path, query) -> parse_request https dh (print_head_d l0 ds lb g ++ extra) = Ok (mk_request (g_method g) path query (if g_v11 g then 11 else 10) (g_hmap g) auth extra)"),
+     r"forall https dh (l0 : bool) (ds : list deco) (lb : bool) (g : greq) extra auth path query, greq_ok g = true -> decos_ok ds (g_headers g) = true -> request_uri https (g_host dh g) (g_target g) = Some (auth, path, query) -> parse_request https dh (print_head_d l0 ds lb g ++ extra) = Ok (mk_request (g_method g) path query (if g_v11 g then 11 else 10) (g_hmap g) auth extra)"),
     ("ows_independent",
      r"forall grow1 grow2 mode1 mode2 https dh (max_len : nat) limit (l0 l0' : bool) (ds ds' : list deco) (lb lb' : bool) (g : greq) rest (sched1 sched2 : list nat), grow_ok grow1 -> grow_ok grow2 -> sched_pos sched1 -> sched_pos sched2 -> greq_ok g = true -> decos_ok ds (g_headers g) = true -> decos_ok ds' (g_headers g) = true -> (length (print_head_d l0 ds lb g) <= max_len)%nat -> (length (print_head_d l0' ds' lb' g) <= max_len)%nat -> expect https dh limit g rest <> None -> (NEED <= length rest)%nat -> (length (print_head_d l0 ds lb g) + NEED <= sum_sched sched1)%nat -> (length (print_head_d l0' ds' lb' g) + NEED <= sum_sched sched2)%nat -> exists sv1 sv2, serve grow1 mode1 https dh max_len limit (print_head_d l0 ds lb g ++ rest) sched1 = Ok sv1 /\ serve grow2 mode2 https dh max_len limit (print_head_d l0' ds' lb' g ++ rest) sched2 = Ok sv2 /\ observed sv1 = observed sv2 /\ observed sv1 <> None".replace("NEED", NEED)),
     ("method_token_starts",
